@@ -497,7 +497,31 @@ class Extractor:
                             o = x[3] if x[2] == t else x[2]
                             if o[0] == "c" and isinstance(o[1], bytes) and len(o[1]) == n and cj.prov == "branch":
                                 const = o[1]
-            # also the unpacked form: struct.unpack('B', read)[0] != 0
+            # also the unpacked form: struct.unpack('B', read)[0] != 0   /   (v,) = struct.unpack(b'B', read); if v != 0
+            if const is None and n == 1:
+                from .terms import lin_parts as _lin_parts
+
+                def _byte_of(a: Term) -> bool:
+                    # a denotes the single byte of this read, as an integer
+                    if a[0] in ("s", "e") and len(a) == 3 and a[2] in (C(0), 0) and a[1][0] == "call" and a[1][1] == ("g", "ext:struct.unpack") \
+                            and len(a[1][2]) == 2 and a[1][2][1] == t and a[1][2][0][0] == "c" and a[1][2][0][1] in (b"B", "B", b">B", ">B", b"<B", "<B", b"!B", "!B"):
+                        return True
+                    return False
+                for r in s.raises():
+                    for cj in r.pc:
+                        if cj.prov != "branch":
+                            continue
+                        for x in conjuncts(cj.term):
+                            if x[0] == "cmp" and x[1] == "!=":
+                                for a, o in ((x[2], x[3]), (x[3], x[2])):
+                                    if _byte_of(a) and o[0] == "c" and isinstance(o[1], int) and not isinstance(o[1], bool) and 0 <= o[1] < 256:
+                                        const = bytes([o[1]])
+                            elif x[0] == "cmpz" and x[1] == "!=":
+                                atoms, k0 = _lin_parts(x[2])
+                                if len(atoms) == 1:
+                                    (a, co), = atoms.items()
+                                    if _byte_of(a) and co in (1, -1) and 0 <= -k0 * co < 256:
+                                        const = bytes([-k0 * co])
             if const is not None:
                 items.append((k, ("const", const), None))
             else:
